@@ -8,7 +8,7 @@ TRUST = "Trusted: go/types and go/ssa (x/tools v0.29.0) as a faithful view of /r
 
 CLAIMS = {
  "C01": dict(
-   technique="interprocedural nil-link typestate (may-return-nil / dereferences-parameter summaries + guard-cut of nil tests), guard-cut rules for cross-object slice bounds and partial operations with a reviewed exception table, placeholder-balance path enumeration, must-pass-through for the result shape, loop-variant recognition on natural loops (iterator / bounded counter incl. delete-and-stay / single-direction link walk) and descent check for recursion",
+   technique="interprocedural nil-link typestate (may-return-nil / dereferences-parameter summaries + guard-cut of nil tests), linear-arithmetic bound proofs for index and slice expressions (Fourier-Motzkin elimination over the branch conditions that dominate the expression; nothing executed, no external solver), guard-cut rules for cross-object slice bounds and partial operations with a reviewed exception table, placeholder-balance path enumeration, must-pass-through for the result shape, loop-variant recognition on natural loops (iterator / bounded counter incl. delete-and-stay / single-direction link walk) and descent check for recursion",
    text="Decides four necessary conditions of panic-freedom on every path of the reachable module code: maybe-nil DOM links are only dereferenced under a nil test (26 sites rely on reviewed DOM invariants, each named), offsets taken from another value's length are bounded by a case-sensitive prefix/length test, constant indexes/assertions/divisions are guarded or structurally safe, start/end placeholders are balanced so the retainer's stack never underflows, Apply returns an error or a fresh div, no goroutine is started, every loop of reachable module code has a recognised variant and every recursive call descends the (finite) tree - one document-order walk is a reviewed exception; a pointer to a module record that a module function may answer as nil is dereferenced only under a nil test (T9, with infeasible nil edges recognised; two sites rest on a reviewed invariant); an update of a nested map is preceded by the creation of its entry (T10). Relational index arithmetic in pagination/pattern, nil pointers paired with error/ok results, termination inside third-party code and third-party panics are NOT decided.",
    design="4/C01"),
  "C02": dict(
